@@ -299,7 +299,7 @@ pub fn run_c11(tier: &str, seed: u64, replay: Option<&str>) -> (Meta, Report) {
         let (_, fam, idx, sd) = parse_case(r);
         return (meta, run_single(c11_case(&fam, idx, sd).expect("case"), judge_c11));
     }
-    let n = if tier == "thorough" { 12_000 } else { 500 };
+    let n = if tier == "thorough" { 50_000 } else { 500 };
     let mut rep = run_cases(n, "c11-rand", move |i| c11_case("rand", i, seed), |info, log, rep| {
         judge_c11(info, log, rep);
         crate::p_xfer::judge_c01(info, log, rep);
